@@ -25,6 +25,9 @@ JsonPool == {
   O(<<JMem(<<78, 101, 119>>, N("1"))>>), O(<<JMem(<<84, 117, 112>>, JArr(<<N("1"), S(<<97>>)>>))>>), O(<<JMem(<<83, 116, 114>>, O(<<JMem(<<97>>, JTrue)>>))>>),
   O(<<JMem(<<84, 117, 112>>, JArr(<<N("1"), S(<<97>>), JTrue>>))>>), O(<<JMem(<<84, 117, 112>>, JArr(<<N("1")>>))>>), O(<<JMem(<<84, 117, 112>>, JArr(<<>>))>>),
   JArr(<<N("1")>>), JArr(<<O(<<JMem(<<120>>, N("1")), JMem(<<121>>, N("2"))>>), N("1")>>),
+  O(<<JMem(<<79, 112, 116>>, JNull)>>), O(<<JMem(<<79, 112, 116>>, N("1"))>>), O(<<JMem(<<78, 105, 108>>, JNull)>>), S(<<79, 112, 116>>), S(<<78, 105, 108>>),
+  O(<<JMem(<<78, 101, 119>>, JNull)>>), O(<<JMem(<<83, 116, 114>>, JNull)>>), O(<<JMem(<<84, 117, 112>>, JNull)>>),
+  JArr(<<O(<<JMem(<<79, 112, 116>>, JNull)>>), S(<<85, 110, 105, 116>>)>>),
   O(<<JMem(<<85, 110, 105, 116>>, JNull)>>), O(<<JMem(<<78, 101, 119>>, N("1")), JMem(<<85, 110, 105, 116>>, JNull)>>), O(<<JMem(<<78, 111>>, N("1"))>>),
   O(<<JMem(<<97>>, N("1")), JMem(<<98>>, N("2"))>>),
   O(<<JMem(<<112>>, O(<<JMem(<<120>>, N("1")), JMem(<<121>>, N("2"))>>)), JMem(<<101>>, S(<<85, 110, 105, 116>>)), JMem(<<111>>, JArr(<<N("1")>>))>>),
